@@ -24,7 +24,12 @@ Inductive cexp :=
 | CAppend (e x : cexp)                    (* e.append(x) *)
 | CSet (e i x : cexp)                     (* e.set(i, x) *)
 | CReverse (e : cexp)                     (* e.reverse() *)
-| CMap (m : list (name * cexp)).          (* {k: e, ...} (pairwise different keys) *)
+| CMap (m : list (name * cexp))           (* {k: e, ...} (pairwise different keys) *)
+| CMapMul (e : cexp) (k : Z)              (* e.map(x->x*k)           lazy stages with a fixed inner closure, *)
+| CTopN (e : cexp) (n : Z)                (* e.top(n)                used by the functions handed to multiUse *)
+| CSkipN (e : cexp) (n : Z)               (* e.skip(n) *)
+| CAcceptGt (e : cexp) (c : Z)            (* e.accept(x->x>c) *)
+| CCombineAdd (e : cexp).                 (* e.combine((x,y)->x+y) *)
 
 Fixpoint ceval (args : list value) (e : cexp) {struct e} : res value :=
   match e with
@@ -72,11 +77,32 @@ Fixpoint ceval (args : list value) (e : cexp) {struct e} : res value :=
                | [] => Ok []
                | (k, x) :: r => bind (ceval args x) (fun v => bind (go r) (fun vs => Ok ((k, v) :: vs)))
                end) m) (fun es => Ok (VMap es))
+  | CMapMul e' k =>
+      bind (ceval args e') (fun v => match v with
+        | VList l => bind (collect (s_map (fun x => calc op_mul x (VInt k)) (of_list l))) (fun r => Ok (VList r))
+        | _ => Err None end)
+  | CTopN e' n =>
+      bind (ceval args e') (fun v => match v with
+        | VList l => bind (collect (s_top n (of_list l))) (fun r => Ok (VList r))
+        | _ => Err None end)
+  | CSkipN e' n =>
+      bind (ceval args e') (fun v => match v with
+        | VList l => bind (collect (s_skip n (of_list l))) (fun r => Ok (VList r))
+        | _ => Err None end)
+  | CAcceptGt e' c =>
+      bind (ceval args e') (fun v => match v with
+        | VList l => bind (collect (s_accept (fun x => calc op_gt x (VInt c)) (of_list l))) (fun r => Ok (VList r))
+        | _ => Err None end)
+  | CCombineAdd e' =>
+      bind (ceval args e') (fun v => match v with
+        | VList l => bind (collect (s_combine (calc op_add) (of_list l))) (fun r => Ok (VList r))
+        | _ => Err None end)
   end.
 
-Inductive arg := AV (v : value) | AF (n : nat) (body : cexp).
+Inductive arg := AV (v : value) | AF (n : nat) (body : cexp)
+  | AFM (fs : list (name * cexp)).     (* a map literal of one-parameter functions {k: a->body, ...} *)
 
-Definition arg_val (a : arg) : res value := match a with AV v => Ok v | AF _ _ => Unsup end.
+Definition arg_val (a : arg) : res value := match a with AV v => Ok v | AF _ _ | AFM _ => Unsup end.
 
 (* ToFunc: a closure with exactly that many parameters *)
 Definition arg_f1 (a : arg) : res cb1 :=
@@ -93,7 +119,7 @@ Inductive meth :=
 | M_combine | M_combine3 | M_combineN | M_indexWhere | M_groupByString | M_groupByInt | M_groupByEqual
 | M_uniqueString | M_uniqueInt | M_compact | M_cross | M_merge | M_order | M_orderRev | M_orderLess
 | M_reverse | M_append | M_iir | M_iirCombine | M_visit | M_fsm | M_top | M_skip | M_number | M_present
-| M_set | M_size | M_first | M_single | M_last | M_eval | M_movingWindow | M_movingWindowRemove
+| M_set | M_size | M_first | M_single | M_last | M_eval | M_movingWindow | M_movingWindowRemove | M_multiUse
 | M_len | M_string | M_trim | M_toLower | M_toUpper | M_contains | M_indexOf | M_split | M_cut
 | M_replace | M_toInt
 | M_get | M_put | M_isAvail | M_list
@@ -114,7 +140,7 @@ Definition meth_name (m : meth) : name :=
   | M_iir => nm_iir | M_iirCombine => nm_iirCombine | M_visit => nm_visit | M_fsm => nm_fsm | M_top => nm_top
   | M_skip => nm_skip | M_number => nm_number | M_present => nm_present | M_set => nm_set | M_size => nm_size
   | M_first => nm_first | M_single => nm_single | M_last => nm_last | M_eval => nm_eval
-  | M_movingWindow => nm_movingWindow | M_movingWindowRemove => nm_movingWindowRemove
+  | M_movingWindow => nm_movingWindow | M_movingWindowRemove => nm_movingWindowRemove | M_multiUse => nm_multiUse
   | M_len => nm_len | M_string => nm_string | M_trim => nm_trim | M_toLower => nm_toLower
   | M_toUpper => nm_toUpper | M_contains => nm_contains | M_indexOf => nm_indexOf | M_split => nm_split
   | M_cut => nm_cut | M_replace => nm_replace | M_toInt => nm_toInt
@@ -133,7 +159,7 @@ Definition list_meths : list (meth * Z) :=
    (M_compact, 1); (M_cross, 2); (M_merge, 2); (M_order, 1); (M_orderRev, 1); (M_orderLess, 1);
    (M_reverse, 0); (M_append, 1); (M_iir, 2); (M_iirCombine, 2); (M_visit, 2); (M_fsm, 1); (M_top, 1);
    (M_skip, 1); (M_number, 1); (M_present, 1); (M_set, 2); (M_size, 0); (M_first, 0); (M_single, 0);
-   (M_last, 0); (M_eval, 0); (M_movingWindow, 1); (M_movingWindowRemove, 1)].
+   (M_last, 0); (M_eval, 0); (M_movingWindow, 1); (M_movingWindowRemove, 1); (M_multiUse, 1)].
 
 Definition string_meths : list (meth * Z) :=
   [(M_len, 0); (M_string, 0); (M_trim, 0); (M_toLower, 0); (M_toUpper, 0); (M_contains, 1);
@@ -151,7 +177,7 @@ Definition model_table : list (N * list (meth * Z)) :=
 
 (* built-ins that exist but have no model (the pipeline answers Unsup: case skipped) *)
 Definition unmodelled_table : list (N * list name) :=
-  [(5%N, [nm_replaceList; nm_multiUse; nm_iirApply; nm_string; nm_createInterpolation; nm_linearReg;
+  [(5%N, [nm_replaceList; nm_iirApply; nm_string; nm_createInterpolation; nm_linearReg;
           nm_binning; nm_binning2d; nm_collectBinning]);
    (3%N, [nm_behind; nm_behindList; nm_toFloat]);
    (6%N, [nm_replaceMap; nm_string]);
@@ -196,6 +222,14 @@ Definition with_list (a : arg) (k : list value -> res pv) : res pv :=
   bind (arg_val a) (fun v => match v with VList l => k l | _ => Err None end).
 Definition with_str (a : arg) (k : str -> res pv) : res pv :=
   bind (arg_val a) (fun v => match v with VStr s => k s | _ => Err None end).
+
+(* List.MultiUse: every function gets the list (its own copy of the iterator), the results are evaluated
+   deeply and returned under the functions' keys, in the order of the function map *)
+Fixpoint multi_apply (l : list value) (fs : list (name * cexp)) : res (list (str * value)) :=
+  match fs with
+  | [] => Ok []
+  | (k, body) :: r => bind (ceval [VList l] body) (fun v => bind (multi_apply l r) (fun es => Ok ((k, v) :: es)))
+  end.
 
 Definition run_list (s : strm) (m : meth) (args : list arg) : res pv :=
   match m, args with
@@ -250,6 +284,12 @@ Definition run_list (s : strm) (m : meth) (args : list arg) : res pv :=
   | M_eval, [] => okL (collect s)
   | M_movingWindow, [a] => bind (arg_f1 a) (fun f => okL (bind (collect s) (m_movingWindow f)))
   | M_movingWindowRemove, [a] => bind (arg_f1 a) (fun f => okL (bind (collect s) (m_movingWindowRemove f)))
+  | M_multiUse, [AFM fs] =>
+      match fs with
+      | [] => Err None                            (* needs at least one function *)
+      | _ => bind (collect s) (fun l => bind (multi_apply l fs) (fun es => Ok (PV (VMap es))))
+      end
+  | M_multiUse, [AV _] | M_multiUse, [AF _ _] => Err None     (* not a map of functions *)
   | _, _ => Unsup
   end.
 
@@ -473,23 +513,39 @@ Definition sort_spec (lt : value -> value -> res bool) (l : list value) : res va
 Fixpoint d_keys (keyf : dcb1) (l : list value) : res (list value) :=
   match l with [] => Ok [] | x :: r => bind (keyf x) (fun k => bind (d_keys keyf r) (fun ks => Ok (k :: ks))) end.
 
-Fixpoint d_distinct (ks : list value) (seen : list value) : res (list value) :=
-  match ks with
-  | [] => Ok (rev seen)
-  | k :: r => bind (contains_item k seen) (fun b => d_distinct r (if b then seen else k :: seen))
+(* the key of an item is compared (with the = of the language) with the keys found so far, in order of
+   first occurrence, until one is equal; a comparison that fails makes the whole call fail *)
+Fixpoint first_eq (k : value) (gs : list value) (i : nat) : res (option nat) :=
+  match gs with
+  | [] => Ok None
+  | g :: r => bind (veq g k) (fun b => if b then Ok (Some i) else first_eq k r (S i))
   end.
 
-Fixpoint d_members (k : value) (kxs : list (value * value)) : res (list value) :=
-  match kxs with
+Fixpoint d_distinct (ks : list value) (seen : list value) : res (list value) :=
+  match ks with
+  | [] => Ok seen
+  | k :: r => bind (first_eq k seen 0) (fun o => d_distinct r (match o with Some _ => seen | None => seen ++ [k] end))
+  end.
+
+Fixpoint d_indices (dk : list value) (ks : list value) : res (list nat) :=
+  match ks with
   | [] => Ok []
-  | (k', x) :: r => bind (veq k k') (fun b => bind (d_members k r) (fun ms => Ok (if b then x :: ms else ms)))
+  | k :: r => bind (first_eq k dk 0) (fun o => bind (d_indices dk r) (fun is_ =>
+                match o with Some i => Ok (i :: is_) | None => Err None end))
+  end.
+
+Fixpoint d_pick (j : nat) (is_ : list nat) (l : list value) : list value :=
+  match is_, l with
+  | i :: ri, x :: rl => if Nat.eqb i j then x :: d_pick j ri rl else d_pick j ri rl
+  | _, _ => []
   end.
 
 Definition d_groups (keyf : dcb1) (l : list value) : res (list value) :=
   bind (d_keys keyf l) (fun ks =>
   bind (d_distinct ks []) (fun dk =>
-  mapM (fun k => bind (d_members k (combine ks l)) (fun ms =>
-                 Ok (VMap [(nm_key, k); (nm_values, VList ms)]))) dk)).
+  bind (d_indices dk ks) (fun is_ =>
+  Ok (map (fun jk => VMap [(nm_key, snd jk); (nm_values, VList (d_pick (fst jk) is_ l))])
+          (combine (seq 0 (length dk)) dk))))).
 
 Definition d_unique (keyf : dcb1) (l : list value) : res (list value) :=
   bind (d_keys keyf l) (fun ks => d_distinct ks []).
@@ -564,6 +620,13 @@ Definition spec_list (l : list value) (m : meth) (args : list arg) : res value :
         then Ok (VList (d_movingWindow (fun a b => match far_apart a b with Ok false => true | _ => false end) kl))
         else Unsup))       (* the description does not say what a window is when the keys go down *)
   | M_movingWindowRemove, [a] => bind (arg_f1 a) (fun f => eg (m_movingWindowRemove f l))
+  (* multiUse(fs) = the map over fs of f(list): direct application *)
+  | M_multiUse, [AFM fs] =>
+      match fs with
+      | [] => Err None
+      | _ => bind (mapM (fun kb => ceval [VList l] (snd kb)) fs) (fun vs => Ok (VMap (combine (map fst fs) vs)))
+      end
+  | M_multiUse, [AV _] | M_multiUse, [AF _ _] => Err None
   | _, _ => Unsup
   end.
 
